@@ -101,6 +101,7 @@ def h_pilot_notify(ic, i1, i2, known1, known2):
         msg = {'cmd': 'update', 'arg': [{'type': 'pilot', 'uid': uid,
                                          'state': PSTATES[i]}]}
         n0 = len(seen)
+        before = p.state
         try:
             pm._state_sub_cb(rpc.STATE_PUBSUB, msg)
         except (ValueError, RuntimeError) as e:
@@ -108,6 +109,14 @@ def h_pilot_notify(ic, i1, i2, known1, known2):
             trace('refused', repr(e))
         if not known:
             check(len(seen) == n0, 'callback for unknown pilot: %s' % seen[n0:])
+        elif before not in FINAL and PSTATES[i] in FINAL:
+            # the pilot ends for the reason it was told: the final state is
+            # the notified one, whatever intermediate states were skipped
+            check(p.state == PSTATES[i], 'pilot in %s was notified %s and '
+                  'ends in %s', before, PSTATES[i], p.state)
+            check(seen[n0:] and seen[-1][1] == PSTATES[i], 'pilot in %s was '
+                  'notified %s, the application was told %s', before,
+                  PSTATES[i], [x[1] for x in seen[n0:]])
     reach()
     trace('cur', cur, 'notified', PSTATES[i1], PSTATES[i2], 'seen', seen,
           'state', p.state)
@@ -352,3 +361,71 @@ def h_pilot_notify_threads(ic, n1, n2, sw1, sw2, B=1):
     if not errs:
         check(PVAL[p.state] == hi, 'pilot ends in %s although %s and %s were '
               'notified', p.state, PSTATES[NOTE2[n1]], PSTATES[NOTE2[n2]])
+
+
+# ------------------------------------------------------------------------------
+# P4: the launcher component tells the truth per pilot: a failed submission to
+# one resource fails the pilots of that bucket only
+#
+import radical.pilot.pmgr.launching.base as m_plb                  # noqa: E402
+
+BUCKETS = [('r0', 'local'), ('r0', 'ssh'), ('r1', 'local')]
+
+
+@obligation(params={'b0': (0, 2), 'b1': (0, 2), 'b2': (0, 2), 'n': (1, 3),
+                    'failmask': (0, 7), 'cancelled': (0, 3)},
+            partition={'quick': ('failmask', 8), 'thorough': ('failmask', 8)},
+            timeout={'quick': 200, 'thorough': 400},
+            funcs=['radical/pilot/pmgr/launching/base.py:'
+                   'PMGRLaunchingComponent.work'],
+            bounds='1..3 pilots submitted in one call, each for one of 3 '
+                   '(resource, access schema) buckets; submission to any '
+                   'subset of the buckets fails; optionally one pilot was '
+                   'cancelled before the call',
+            stubs=['_start_pilot_bulk -> raises for the failing buckets',
+                   'advance -> recorder'])
+def h_launch_buckets(b0, b1, b2, n, failmask, cancelled):
+    """each pilot is reported LAUNCHING, then ACTIVE_PENDING or FAILED
+    according to what happened to its own submission"""
+    n, failmask, cancelled = conc(n, 1, 3), conc(failmask, 0, 7), \
+                             conc(cancelled, 0, 3)
+    bs = [conc(b0, 0, 2), conc(b1, 0, 2), conc(b2, 0, 2)][:n]
+    if cancelled > n: return
+    c = object.__new__(m_plb.PMGRLaunchingComponent)
+    c._uid, c._log, c._prof = 'pmgr_launching.0000', Null(), Null()
+    c._cancelled = ['pilot.%04d' % (cancelled - 1)] if cancelled else []
+    adv = []
+    def _advance(things, state=None, publish=True, push=False, **kw):
+        for t in ru.as_list(things):
+            adv.append((t['uid'], state))
+    c.advance = _advance
+    started = []
+    def _start(resource, schema, pilots):
+        started.append((resource, schema, [p['uid'] for p in pilots]))
+        if (failmask >> BUCKETS.index((resource, schema))) & 1:
+            raise RuntimeError('submission to %s failed' % resource)
+    c._start_pilot_bulk = _start
+    pilots = [{'uid': 'pilot.%04d' % i, 'type': 'pilot', 'state': rps.NEW,
+               'description': {'resource': BUCKETS[b][0],
+                               'access_schema': BUCKETS[b][1]}}
+              for i, b in enumerate(bs)]
+    real(c.work, pilots)
+    reach()
+    trace('buckets', bs, 'failmask', failmask, 'cancelled', c._cancelled,
+          'advanced', adv, 'started', started)
+    for i, b in enumerate(bs):
+        uid  = 'pilot.%04d' % i
+        mine = [s for u, s in adv if u == uid]
+        if uid in c._cancelled:
+            check(mine == [rps.CANCELED], 'cancelled pilot %s reported %s',
+                  uid, mine)
+            check(not any(uid in x[2] for x in started), 'cancelled pilot %s '
+                  'was submitted', uid)
+            continue
+        want = rps.FAILED if (failmask >> b) & 1 else rps.PMGR_ACTIVE_PENDING
+        check(mine == [rps.PMGR_LAUNCHING, want], 'pilot %s (bucket %s, '
+              'submission %s) reported %s', uid, BUCKETS[b],
+              'failed' if want == rps.FAILED else 'ok', mine)
+        check(sum(1 for x in started if uid in x[2]) == 1, 'pilot %s '
+              'submitted %s times', uid,
+              sum(1 for x in started if uid in x[2]))
